@@ -19,21 +19,54 @@ HW_BASES = [
 
 
 def gen_hw(rng):
-    name, decl, exprs, los = rng.choice(HW_BASES)
-    lo = rng.choice(los)
+    """One metrics-mode specification: Einsum template x (declared / mapped rank orders, not necessarily concordant with the loop order)
+    x optional partitioning of one rank (shape or occupancy) x architecture/binding/format option vector."""
+    name, decl0, exprs, los = rng.choice(HW_BASES)
+    lo0 = rng.choice(los)
     out = "Z"
-    ro = {t: concord(r, lo) for t, r in decl.items()}
+    inputs = [t for t in decl0 if t != out]
+    # declaration order and mapping rank-order: random, so that swizzles (and merger-less reorderings) appear
+    decl = {t: (rng.sample(r, len(r)) if rng.random() < 0.4 else list(r)) for t, r in decl0.items()}
+    ro = {}
+    for t, r in decl.items():
+        c = rng.random()
+        if c < 0.45:
+            ro[t] = concord(r, lo0)
+        elif c < 0.65 and len(r) > 1:
+            ro[t] = rng.sample(r, len(r))
+    # optional partitioning of one rank
+    part, levels_of = {}, {r: [r] for r in lo0}
+    if rng.random() < 0.45 and "+" not in exprs[0]:
+        r = rng.choice(lo0)
+        holders = [t for t in inputs if r in decl[t]]
+        kind = rng.choice(["us", "us", "uo", "us2"])
+        if kind == "uo" and holders:
+            part[r] = ["uniform_occupancy(%s.%d)" % (rng.choice(holders), rng.choice([1, 2]))]
+        elif kind == "us2":
+            part[r] = ["uniform_shape(4)", "uniform_shape(2)"]
+        else:
+            part[r] = ["uniform_shape(%d)" % rng.choice([2, 3])]
+        n = len(part[r])
+        levels_of[r] = [r + str(i) for i in range(n, -1, -1)]
+    from families import interleave
+    lo = interleave(rng, [levels_of[r] for r in lo0]) if rng.random() < 0.5 else [l for r in lo0 for l in levels_of[r]]
+    # keep the relative order of distinct root ranks as in lo0 for the first level of each (legal dataflows) -- the compiler rejects the rest
+
+    def tranks(t):
+        rs = [l for l in lo if any(l in levels_of[r] for r in decl[t])]
+        return rs
+
     nspace = rng.choice([0, 0, 1])
     space = lo[-nspace:] if nspace and len(lo) > 1 else []
     time_ = [r for r in lo if r not in space]
     st = {out: {"space": space, "time": time_}}
-    y = mk_yaml(decl, exprs, ro=ro, lo={out: lo}, st=st)
-    inputs = [t for t in decl if t != out]
-    # ---- format
+    y = mk_yaml(decl, exprs, ro=ro, part={out: part} if part else None, lo={out: lo}, st=st)
+    # ---- format: rank-order = the tensor's (partitioned) ranks in loop order
     fmt = "format:\n"
     for t in decl:
-        fmt += "  %s:\n    default:\n      rank-order: [%s]\n" % (t, ", ".join(ro[t]))
-        for r in ro[t]:
+        rs = tranks(t)
+        fmt += "  %s:\n    default:\n      rank-order: [%s]\n" % (t, ", ".join(rs))
+        for r in rs:
             f = rng.choice(["U", "C"])
             fmt += "      %s:\n        format: %s\n" % (r, f)
             if f == "C" or rng.random() < 0.3:
@@ -42,7 +75,7 @@ def gen_hw(rng):
     # ---- architecture
     freq = rng.choice([2, 3, 5, 7])
     bw = rng.choice([2, 3, 5, 7, 11])
-    buf_class = rng.choice(["Buffet", "Buffet", "Cache", None])
+    buf_class = rng.choice(["Buffet", "Buffet", "Buffet", "Cache", None])
     npe = rng.choice([0, 1, 2])
     isect = rng.choice([None, "leader-follower", "skip-ahead", "two-finger"]) if name != "sum" else None
     has_mul = "*" in exprs[0] and rng.random() < 0.8
@@ -55,7 +88,6 @@ def gen_hw(rng):
         if rng.random() < 0.3:
             arch += "          bandwidth: %d\n" % rng.choice([3, 13])
     arch += "      subtree:\n      - name: PE[0..%d]\n        local:\n" % npe
-    comps = []
     if isect:
         arch += "        - name: Isect\n          class: Intersector\n          attributes:\n            type: %s\n" % isect
     if has_mul:
@@ -70,7 +102,7 @@ def gen_hw(rng):
     b = "bindings:\n  %s:\n  - config: Accel\n    prefix: tmp/%s\n" % (out, name)
     dram = []
     for t in decl:
-        for r in ro[t]:
+        for r in tranks(t):
             for ty in ("coord", "payload"):
                 if rng.random() < 0.6:
                     dram.append((t, r, ty))
@@ -87,15 +119,15 @@ def gen_hw(rng):
                 if buf_class == "Buffet":
                     outer = [x for x in lo[:lo.index(r)]] if r in lo else []
                     b += "      evict-on: %s\n" % rng.choice(["root"] + outer)
-                    if rng.random() < 0.5:
-                        b += "      style: %s\n" % rng.choice(["lazy", "eager"])
+                    if rng.random() < 0.6:
+                        b += "      style: %s\n" % rng.choice(["lazy", "eager", "eager"] if t == out else ["lazy", "eager"])
     if isect:
-        shared = [r for r in lo if sum(1 for t in inputs if r in decl[t]) >= 2]
+        shared = [l for l in lo if sum(1 for t in inputs if l in tranks(t)) >= 2]
         if shared:
             r = rng.choice(shared)
             b += "  - component: Isect\n    bindings:\n    - rank: %s\n" % r
             if isect == "leader-follower":
-                b += "      leader: %s\n" % rng.choice([t for t in inputs if r in decl[t]])
+                b += "      leader: %s\n" % rng.choice([t for t in inputs if r in tranks(t)])
     if has_mul:
         b += "  - component: FPMul\n    bindings:\n    - op: mul\n"
     if has_add:
@@ -103,8 +135,9 @@ def gen_hw(rng):
     if has_seq:
         b += "  - component: Seq\n    bindings:\n" + "".join("    - rank: %s\n" % r for r in lo)
     full = y + fmt + arch + b
-    cfg = {r: 3 for rs in decl.values() for r in rs}
-    return {"yaml": full, "configs": [cfg], "family": "hw-" + name, "key": full, "hw": True, "plain_yaml": y,
+    cfg = {r: (4 if r in part else 3) for rs in decl.values() for r in rs}
+    plain = mk_yaml(decl, exprs, ro=ro, part={out: part} if part else None, lo={out: lo})
+    return {"yaml": full, "configs": [cfg], "family": "hw-" + name + ("-part" if part else ""), "key": full, "hw": True, "plain_yaml": plain,
             "arch": {"freq": freq, "bw": bw, "npe": npe + 1}}
 
 
@@ -124,4 +157,32 @@ def hw_core():
             b = "bindings:\n  Z:\n  - config: Accel\n    prefix: tmp/%s\n  - component: Isect\n    bindings:\n    - rank: %s\n      leader: %s\n  - component: FPMul\n    bindings:\n    - op: mul\n" % (name, rank, L)
             out.append({"yaml": y + fmt + arch + b, "configs": [{r: 3 for rs in decl.values() for r in rs}], "family": "hw-core-" + name, "key": name + L,
                         "hw": True, "plain_yaml": y, "arch": {}})
+    out += eager_core()
+    return out
+
+
+def eager_core():
+    """Fixed core: eager / lazy buffets on the output and on an input, declared rank order concordant or not with the loop order."""
+    out = []
+    lo = ["M", "N", "K"]
+    for zdecl in (["M", "N"], ["N", "M"]):
+        for adecl in (["K", "M"], ["M", "K"]):
+            decl = {"A": adecl, "B": ["K", "N"], "Z": zdecl}
+            y = mk_yaml(decl, ["Z[m, n] = A[k, m] * B[k, n]"], lo={"Z": lo}, st={"Z": {"space": [], "time": lo}})
+            fmt = "format:\n" + "".join("  %s:\n    default:\n      rank-order: [%s]\n" % (t, ", ".join(concord(decl[t], lo))) +
+                                          "".join("      %s:\n        format: C\n        cbits: 32\n        pbits: 32\n" % r for r in concord(decl[t], lo)) for t in decl)
+            arch = ("architecture:\n  Accel:\n  - name: System\n    attributes:\n      clock_frequency: 3\n    local:\n    - name: MainMemory\n      class: DRAM\n      attributes:\n        bandwidth: 5\n"
+                    "    subtree:\n    - name: Chip\n      local:\n      - name: Buf\n        class: Buffet\n        attributes:\n          width: 32\n          depth: 128\n")
+            cands = []
+            for tensor in ("Z", "A", "B"):
+                for rank in decl[tensor]:
+                    for evict in ["root"] + lo[:lo.index(rank)]:
+                        cands.append((tensor, rank, evict))
+            for tensor, rank, evict in cands:
+                for style in ("eager", "lazy"):
+                    b = "bindings:\n  Z:\n  - config: Accel\n    prefix: tmp/e\n  - component: MainMemory\n    bindings:\n"
+                    b += "    - tensor: %s\n      rank: %s\n      type: payload\n      format: default\n" % (tensor, rank)
+                    b += "  - component: Buf\n    bindings:\n    - tensor: %s\n      rank: %s\n      type: payload\n      format: default\n      evict-on: %s\n      style: %s\n" % (tensor, rank, evict, style)
+                    out.append({"yaml": y + fmt + arch + b, "configs": [{"K": 3, "M": 3, "N": 3}], "family": "hw-core-eager", "key": "eager" + str((zdecl, adecl, tensor, rank, evict, style)),
+                                "hw": True, "plain_yaml": y, "arch": {}, "cap": 6})
     return out
